@@ -12,7 +12,9 @@ HARNESS = "h_C05.cpp"
 VARIANTS = {"quick": ["O1"], "thorough": ["O1", "asan"]}
 MODEL_NEEDS_IMPL = True      # the model's square-root oracle is the SVD factor the implementation computed
 AXIOMS_ALLOWED = []          # MathComp only: closed under the global context
-REQUIRED_THEOREMS = ["C05_size_mismatch_identity"]
+REQUIRED_THEOREMS = ["C05_block_sum", "C05_serial_cov_identity", "C05_push_through", "C05_sigma_cov", "C05_cov", "C05_mean",
+                     "C05_likelihood", "C05_Cinv_invertible", "C05_Pyy_invertible", "C05_step_equals_ukf",
+                     "C05_reduced_eq_full", "C05_reduced_eq_full_likelihood", "C05_size_mismatch_identity"]
 RULE = ("cases drawn from one seeded stream: state size n in 1..5, sub-measurement size s in 1..3, k in 1..4 blocks "
         "(meas = k*s), 15% of the cases with a measurement size that is NOT a multiple of s, components 1..3, "
         "h from a 3-member family (affine; affine + g sin(Gx); affine + g (Gx)(G2x)) with random coefficients, "
@@ -25,8 +27,9 @@ TRUSTED_BASE = ["Coq 8.16.1 kernel (coqc); no axioms (Print Assumptions: closed 
                 "MathComp 1.15 matrix theory",
                 "extraction (ExtrOcamlBasic only) and ocaml/float_ops.ml, ocaml/drv_C05.ml, ocaml/caseio.ml",
                 "ListOps list instance of MatOps (structural operations and Gauss-Jordan inverse/determinant, unproved)",
-                "cpp/h_C05.cpp harness (its AdditiveMeasurementModel computing the h family), tolerances rtol 1e-9*cond (impl vs model) "
-                "and 1e-7*cond (SUKF vs UKF)",
+                "cpp/h_C05.cpp harness (its AdditiveMeasurementModel computing the h family), tolerances: mean/covariance 1e-10*cond*scale "
+                "(cond = max of cond(P_i), cond(R), cond(Pyy_i)); log-likelihood 1e-11 (impl vs model) / 1e-10 (SUKF vs UKF) times "
+                "cond(I+Y^T R^-1 Y)*(1+nu^T R^-1 nu), comparisons with that factor > 1e7 excluded and counted",
                 "correspondence is sampled: agreement is established on the generated cases only",
                 "IEEE rounding is not modelled (theorems over an exact real field)"]
 ASSUMPTIONS = ["Eigen's jacobiSvd factor A = U sqrt(s) satisfies A A^T = P for symmetric PSD P (premise of the theorems; checked on every case)",
@@ -36,6 +39,7 @@ ASSUMPTIONS = ["Eigen's jacobiSvd factor A = U sqrt(s) satisfies A A^T = P for s
                "0 < measurement_sub_size (meas_size % 0 is undefined behaviour in C++)",
                "the measurement model reports valid measurement, prediction and innovation (the validity-flag prefix is C12's subject)"]
 
+RTOL = 1e-10     # mean / covariance: |a - b| <= RTOL * cond * scale; measured worst 2e-14 * cond * scale over 1200 cases
 COUNTS = {"quick": 300, "thorough": 10000}
 
 
@@ -90,6 +94,12 @@ def generate(rng, tier):
         else:
             m = k * s
         alpha, beta, kappa, wc0, cc = ut_params(rng, n)
+        negwc = 0
+        if mult and rng.random() < 0.03:
+            # outside the property's scope (wc_0 < 0): the square-root weighting of the serial form yields NaN;
+            # kept as a correspondence-only case (model and implementation must agree on the NaN pattern)
+            alpha, beta, kappa = rng.uniform(0.05, 0.3), 0.0, 0.0
+            cc = alpha * alpha * n; wc0 = (cc - n) / cc + 1 - alpha * alpha; negwc = 1
         H = gen.matrix(rng, m, n); G = gen.matrix(rng, m, n, 0.5); G2 = gen.matrix(rng, m, n, 0.5)
         b = gen.matrix(rng, m, 1); g = gen.matrix(rng, m, 1)
         means = gen.matrix(rng, n, 1, 2.0) + gen.matrix(rng, n, comps, rng.choice([0.1, 0.3, 1.0]))
@@ -123,7 +133,7 @@ def generate(rng, tier):
         y = h_eval(kind, H, G, G2, b, g, means[:, [0]]) + gen.matrix(rng, m, 1, 0.7)
         w = np.array([rng.random() + 0.1 for _ in range(comps)]); w = w / w.sum()
         c = caseio.Case(idx, "sukf", {"n": n, "m": m, "s": s, "k": k, "comps": comps, "hkind": kind, "mult": mult,
-                                      "equal": equal, "rankdef": rankdef, "cond": "%.3g" % max(cond, condR),
+                                      "equal": equal, "rankdef": rankdef, "negwc": negwc, "cond": "%.3g" % max(cond, condR),
                                       "wc0": "%.3g" % wc0})
         c.mat("H", H).mat("G", G).mat("G2", G2).mat("b", b).mat("g", g).mat("y", y)
         c.mat("Rfull", Rfull)
@@ -140,7 +150,7 @@ def nontrivial(c):
     n, s, k, comps = int(c.meta["n"]), int(c.meta["s"]), int(c.meta["k"]), int(c.meta["comps"])
     kind, mult = int(c.meta["hkind"]), int(c.meta["mult"])
     if k >= 2 or comps >= 2 or kind != 0 or mult == 0:
-        return (n, s, k, comps, kind, c.meta["equal"], mult, c.meta["rankdef"])
+        return (n, s, k, comps, kind, c.meta["equal"], mult, c.meta["rankdef"], c.meta.get("negwc", "0"))
     return None
 
 
@@ -207,7 +217,7 @@ def compare(c, impl, model):
     for i in range(comps):
         fields += ["u_mean%d" % i, "u_cov%d" % i]
         liks.append("u_lik%d" % i)
-    d += caseio.compare_fields(impl, model, fields, atol=1e-12, rtol=1e-9, scale=cond * pscale(c))
+    d += caseio.compare_fields(impl, model, fields, atol=1e-12, rtol=RTOL, scale=cond * pscale(c))
     for f in liks:
         i = int(re.search(r"(\d+)$", f).group(1))
         ls = lik_scale(c, model, i)
@@ -236,6 +246,8 @@ def oracle(c, impl, model):
         flag = "reduced" if pre == "r_" else "full"
         if impl.get(pre + "pred_unchanged") != 1:
             v.append(("C05:prior-modified:%s" % flag, "the predicted belief passed in was modified"))
+        if c.meta.get("negwc", "0") == "1":
+            continue          # wc_0 < 0: outside the property (the serial form needs sqrt(wc)); correspondence only
         if not mult:
             # size mismatch: output = input exactly, no likelihood
             if impl.get(pre + "out_equals_pred") != 1:
@@ -255,7 +267,7 @@ def oracle(c, impl, model):
             P = covs[:, i * n:(i + 1) * n]
             sm, sc_, sl = impl.get(pre + "mean%d" % i), impl.get(pre + "cov%d" % i), impl.get(pre + "lik%d" % i)
             um, uc, ul = impl.get("u_mean%d" % i), impl.get("u_cov%d" % i), impl.get("u_lik%d" % i)
-            tol = 1e-7 * cond * pscale(c)
+            tol = RTOL * cond * pscale(c)
             if not caseio.close(sm, um, tol, 0):
                 v.append(("C05:sukf-ne-ukf:mean:%s" % flag, "component %d: max diff %.3g > %.3g" % (i, caseio.maxdiff(sm, um), tol)))
             if not caseio.close(sc_, uc, tol, 0):
@@ -263,9 +275,9 @@ def oracle(c, impl, model):
             ls = lik_scale(c, model, i)
             if ls <= LIK_SCALE_MAX and not lik_close(sl, ul, LIK_RTOL_UKF * ls):
                 v.append(("C05:sukf-ne-ukf:likelihood:%s" % flag, "component %d: %r vs %r (log tol %.3g)" % (i, sl, ul, LIK_RTOL_UKF * ls)))
-    if mult and c.has("Rblock"):
+    if mult and c.has("Rblock") and c.meta.get("negwc", "0") != "1":
         for i in range(comps):
-            tol = 1e-7 * cond * pscale(c)
+            tol = RTOL * cond * pscale(c)
             if not (caseio.close(impl.get("r_mean%d" % i), impl.get("f_mean%d" % i), tol, 0)
                     and caseio.close(impl.get("r_cov%d" % i), impl.get("f_cov%d" % i), tol, 0)
                     and (lik_scale(c, model, i) > LIK_SCALE_MAX
@@ -282,7 +294,7 @@ def histogram(cases):
         return d
     return {"h_kind": count(lambda c: c.meta["hkind"]), "blocks_k": count(lambda c: c.meta["k"]),
             "sub_size": count(lambda c: c.meta["s"]), "state_n": count(lambda c: c.meta["n"]),
-            "components": count(lambda c: c.meta["comps"]), "multiple": count(lambda c: c.meta["mult"]),
+            "components": count(lambda c: c.meta["comps"]), "multiple": count(lambda c: c.meta["mult"]), "negative_wc0_out_of_scope": count(lambda c: c.meta.get("negwc", "0")),
             "equal_blocks": count(lambda c: c.meta["equal"]), "rank_deficient_P": count(lambda c: c.meta["rankdef"]),
             "cond_decade": count(lambda c: gen.decade(float(c.meta["cond"]))),
             "likelihood_comparisons_excluded_ill_conditioned": EXCLUDED["likelihood_ill_conditioned"]}
